@@ -46,7 +46,7 @@ static void* vrt_alloc(std::size_t n, bool nothrow) {
   vrt::AllocState& a = vrt::g_alloc;
   if (a.counting) {
     long idx = a.count++;
-    if (a.fail_at >= 0 && (idx == a.fail_at || idx == a.fail_at2 || (a.fail_from && idx > a.fail_at))) {
+    if (a.fail_at >= 0 && (idx == a.fail_at || idx == a.fail_at2 || idx == a.fail_at3 || (a.fail_from && idx > a.fail_at))) {
       ++a.fired;
       if (nothrow) return nullptr;
       throw std::bad_alloc();
@@ -63,7 +63,7 @@ static void* vrt_alloc_aligned(std::size_t n, std::size_t al, bool nothrow) {
   vrt::AllocState& a = vrt::g_alloc;
   if (a.counting) {
     long idx = a.count++;
-    if (a.fail_at >= 0 && (idx == a.fail_at || idx == a.fail_at2 || (a.fail_from && idx > a.fail_at))) {
+    if (a.fail_at >= 0 && (idx == a.fail_at || idx == a.fail_at2 || idx == a.fail_at3 || (a.fail_from && idx > a.fail_at))) {
       ++a.fired;
       if (nothrow) return nullptr;
       throw std::bad_alloc();
@@ -319,11 +319,12 @@ void execute(const OpEntry& e, std::uint64_t seed, long p0, long p1, int slot, c
   check_outcome(e, r0, false, "none", st);
   if (r0.nonfinite) ++st.nonfinite;
   long fired_total = 0;
-  auto e1_alloc = [&](long k, bool from, std::ostream* os, long k2 = -1) {
-    g_phase = from ? "E1-allocfrom" : (k2 >= 0 ? "E1-alloc2" : "E1-alloc");
+  auto e1_alloc = [&](long k, bool from, std::ostream* os, long k2 = -1, long k3 = -1) {
+    g_phase = from ? "E1-allocfrom" : (k3 >= 0 ? "E1-alloc3" : (k2 >= 0 ? "E1-alloc2" : "E1-alloc"));
     vrt::g_alloc = vrt::AllocState{};
     vrt::g_alloc.fail_at = k;
     vrt::g_alloc.fail_at2 = k2;
+    vrt::g_alloc.fail_at3 = k3;
     vrt::g_alloc.fail_from = from;
     vrt::g_armed = true;
     g_fault_armed = true;
@@ -335,7 +336,8 @@ void execute(const OpEntry& e, std::uint64_t seed, long p0, long p1, int slot, c
     long fired = vrt::g_alloc.fired;
     fired_total += fired;
     char fdesc[64];
-    if (k2 >= 0) std::snprintf(fdesc, sizeof fdesc, "alloc2:%ld:%ld", k, k2);
+    if (k3 >= 0) std::snprintf(fdesc, sizeof fdesc, "alloc3:%ld:%ld:%ld", k, k2, k3);
+    else if (k2 >= 0) std::snprintf(fdesc, sizeof fdesc, "alloc2:%ld:%ld", k, k2);
     else std::snprintf(fdesc, sizeof fdesc, "%s:%ld", from ? "allocfrom" : "alloc", k);
     if (fired == 0) ++st.not_fired; else ++st.fired;
     check_outcome(e, r1, fired > 0, fdesc, st);
@@ -368,6 +370,8 @@ void execute(const OpEntry& e, std::uint64_t seed, long p0, long p1, int slot, c
     for (long k = 0; k < n; ++k) { e1_alloc(k, false, nullptr); if (n > 1 && k + 1 < n) e1_alloc(k, true, nullptr); }
     // pairs of failures at two different indices (the first one is often swallowed inside a stream and the call goes on)
     if (n >= 2 && n <= 12) for (long k = 0; k + 1 < n; ++k) for (long k2 = k + 1; k2 < n; ++k2) e1_alloc(k, false, nullptr, k2);
+    // ... and triples for calls with few allocations (a printing call inside a stream insertion can swallow two)
+    if (n >= 3 && n <= 8) for (long k = 0; k + 2 < n; ++k) for (long k2 = k + 1; k2 + 1 < n; ++k2) for (long k3 = k2 + 1; k3 < n; ++k3) e1_alloc(k, false, nullptr, k2, k3);
   } else if (fault == "sink" && stream_op) {
     e1_sink(len0 >= 0 ? fa % (len0 + 1) : 0, static_cast<int>(fb % 3), static_cast<int>((fb / 3) % 8));
   } else if (fault == "sinkeach" && stream_op) {
@@ -405,6 +409,26 @@ void execute(const OpEntry& e, std::uint64_t seed, long p0, long p1, int slot, c
         char fd[48];
         std::snprintf(fd, sizeof fd, "sink:width:%ld", w);
         check_outcome(e, rw, false, fd, st);
+      }
+      {  // floatfield flags, extreme precision and a numpunct facet imbued on the caller's stream itself
+        struct StreamPunct : std::numpunct<char> {
+          char do_decimal_point() const override { return ','; }
+          char do_thousands_sep() const override { return '\''; }
+          std::string do_grouping() const override { return "\2\3"; }
+        };
+        for (int variant = 0; variant < 3; ++variant) {
+          g_phase = "E1-flags2";
+          Scratch sf;
+          if (variant == 0) { sf.os.setf(std::ios::fixed, std::ios::floatfield); sf.os.precision(200); }
+          else if (variant == 1) { sf.os.setf(std::ios::fixed | std::ios::scientific, std::ios::floatfield); sf.os.precision(0); sf.os.setf(std::ios::hex, std::ios::basefield); }
+          else { sf.os.setf(std::ios::scientific, std::ios::floatfield); sf.os.precision(-1); sf.os.setf(std::ios::boolalpha | std::ios::showbase | std::ios::oct); }
+          sf.os.imbue(std::locale(sf.os.getloc(), new StreamPunct));
+          Outcome rf = run_once(e, c, seed, p0, p1, &sf.os);
+          ++st.execs;
+          char fd[48];
+          std::snprintf(fd, sizeof fd, "sink:flags2:%d", variant);
+          check_outcome(e, rf, false, fd, st);
+        }
       }
       g_phase = "E1-flags";
       Scratch s2;
